@@ -130,6 +130,29 @@ theorem g2_bn_complete (ψ : A →+ A) (z : ℤ) (r : ℕ) (lam : ℤ)
   rw [e3, e2, e1, ← sub_eq_zero, ← e]
   module
 
+/-- g1_mul / g2_mul hand on a scalar that acts like k on every element killed by n (whichever path is taken) -/
+theorem mulRoute_smul (w n : ℕ) (k : ℤ) (P : A) (hP : n • P = 0) : (mulRoute w n k).2 • P = k • P := by
+  unfold mulRoute
+  split
+  · rfl
+  · have h : (n : ℤ) • P = 0 := by rw [natCast_zsmul]; exact hP
+    conv_rhs => rw [← Int.emod_add_mul_ediv k n]
+    rw [add_smul, mul_smul, smul_comm, h, smul_zero, add_zero]
+
+/-- … and so do g1_mul_gen / g2_mul_gen; the scalar handed on is the canonical residue -/
+theorem genRoute_smul (n : ℕ) (k : ℤ) (P : A) (hP : n • P = 0) : (genRoute n k) • P = k • P := by
+  have h : (n : ℤ) • P = 0 := by rw [natCast_zsmul]; exact hP
+  unfold genRoute
+  conv_rhs => rw [← Int.emod_add_mul_ediv k n]
+  rw [add_smul, mul_smul, smul_comm, h, smul_zero, add_zero]
+
+theorem genRoute_range (n : ℕ) (hn : 0 < n) (k : ℤ) : 0 ≤ genRoute n k ∧ genRoute n k < n :=
+  ⟨Int.emod_nonneg _ (by omega), Int.emod_lt_of_pos _ (by omega)⟩
+
+/-- the one-digit path is taken exactly when |k| fits one digit -/
+theorem mulRoute_dig (w n : ℕ) (k : ℤ) : (mulRoute w n k).1 = true ↔ k.natAbs < 2 ^ w := by
+  unfold mulRoute; split <;> simp [*]
+
 /-- the hypotheses of `g1_b12` are satisfiable: Z/13 with z = 2 (r = z⁴ − z² + 1 = 13), ψ = multiplication by 3
     (3² + 3 + 1 = 13, 3² + 2² = 13) -/
 example : ∃ (ψ : ZMod 13 →+ ZMod 13) (z lam : ℤ) (r : ℕ), (∀ P, ψ (ψ P) + ψ P + P = 0) ∧ (r : ℤ) = z ^ 4 - z ^ 2 + 1 ∧
